@@ -86,3 +86,10 @@ use wasm_bindgen::prelude::*;
 pub fn pretty_print_wasm(content: &str, width: usize) -> String {
     format_with_width(content, width)
 }
+
+/// Re-exports of private kernels for the out-of-tree verification drivers.
+#[cfg(feature = "verif-hooks")]
+pub mod verif_hooks {
+    pub use crate::pretty::verif_hooks::*;
+    pub use crate::utils::{count_spaces_after_last_newline, strip_trailing_whitespace, trim_range};
+}
